@@ -82,28 +82,34 @@ def check(ctx) -> Result:
     cms = ctx.func(UTILS, "compress_mode_swaps")
     rh_dispatch.h2_touches(ctx, res, cms, "spec2", "blocked_modes")
     # Group / UnitaryMatrix ranges are inclusive of the last mode (whatever form the loop / update takes)
-    from ..rules.rh_dispatch import branch_for, heads
-    chains = list(heads(cms.node, "spec2"))
-    if not chains:
-        raise AnalysisError("compress_mode_swaps: dispatch over spec2 not found")
-    def local(name, body):
-        d = [a.value for s_ in body for a in ast.walk(s_) if isinstance(a, ast.Assign) and src(a.targets[0]) == name]
-        return src(d[0]).replace(" ", "") if len(d) == 1 else name
-    for kind, want in (("Group", ("spec2.mode_1", "spec2.mode_2+1")), ("UnitaryMatrix", ("spec2.mode", "spec2.mode+spec2.unitary.shape[0]"))):
-        _ks, body, node = branch_for(kind, chains[0][1], ctx)
-        rngs = [c for s_ in body for c in ast.walk(s_) if isinstance(c, ast.Call) and src(c.func) == "range" and len(c.args) >= 2]
-        okr = False
-        got = []
-        for c in rngs:
-            a = [src(x).replace(" ", "") for x in c.args[:2]]
-            # resolve single-assignment locals such as n = spec2.unitary.shape[0]
-            for nm in {x.id for x in ast.walk(c.args[1]) if isinstance(x, ast.Name)} - {"spec2"}:
-                a[1] = a[1].replace(nm, local(nm, body))
-            got.append(a)
-            if tuple(a) == want or (a[0] == want[0] and a[1] in (want[1], "+".join(reversed(want[1].split("+", 1))))):
-                okr = True
-        res.add(okr, "H2-blocked-range-complete", f"compress_mode_swaps:{kind}", cms.site(node) if node is not None else cms.site(), cms.qualname, f"blocks range({want[0]}, {want[1]}): every mode of the component",
-                f"the modes blocked for a {kind} are {got}, not range({want[0]}, {want[1]}): its last mode is left free, so a swap touching it is commuted across the component", construct=str(got))
+    from ..rules.rh_dispatch import branch_for, find_dispatch, heads
+    found = find_dispatch(ctx, cms, "spec2")
+    if found is None:
+        res.frozen(False, "H2-blocked-range-complete", "compress_mode_swaps", cms.site(), cms.qualname, "", "dispatch over the later component not recognised", construct="")
+    else:
+        dfi, dnode, dv, _p = found
+        chains = list(heads(dnode, dv))
+        def local(name, body):
+            d = [a.value for s_ in body for a in ast.walk(s_) if isinstance(a, ast.Assign) and src(a.targets[0]) == name]
+            return src(d[0]).replace(" ", "") if len(d) == 1 else name
+        for kind, want in (("Group", (f"{dv}.mode_1", f"{dv}.mode_2+1")), ("UnitaryMatrix", (f"{dv}.mode", f"{dv}.mode+{dv}.unitary.shape[0]"))):
+            _ks, body, node = branch_for(kind, chains[0][1], ctx)
+            rngs = [c for s_ in body for c in ast.walk(s_) if isinstance(c, ast.Call) and src(c.func) == "range" and len(c.args) >= 2]
+            okr = False
+            got = []
+            for c in rngs:
+                a = [src(x).replace(" ", "") for x in c.args[:2]]
+                # resolve single-assignment locals such as n = spec2.unitary.shape[0]
+                for nm in {x.id for x in ast.walk(c.args[1]) if isinstance(x, ast.Name)} - {dv}:
+                    a[1] = a[1].replace(nm, local(nm, body))
+                got.append(a)
+                if tuple(a) == want or (a[0] == want[0] and a[1] in (want[1], "+".join(reversed(want[1].split("+", 1))))):
+                    okr = True
+            if not rngs:
+                res.frozen(False, "H2-blocked-range-complete", f"compress_mode_swaps:{kind}", dfi.site(node) if node is not None else dfi.site(), dfi.qualname, "", f"no range(...) over the modes of a {kind} recognised", construct="")
+            else:
+                res.add(okr, "H2-blocked-range-complete", f"compress_mode_swaps:{kind}", dfi.site(node) if node is not None else dfi.site(), dfi.qualname, f"blocks range({want[0]}, {want[1]}): every mode of the component",
+                        f"the modes blocked for a {kind} are {got}, not range({want[0]}, {want[1]}): its last mode is left free, so a swap touching it is commuted across the component", construct=str(got))
     # swap meeting a blocked mode blocks all its modes, else combined.  Recognised forms of the decision:
     #   for m in S: if m in blocked: <block all>; break   else: <combine>
     #   if any(m in blocked for m in S): <block all>  else: <combine>      (also set intersection / isdisjoint)
